@@ -333,3 +333,81 @@ Proof.
 Qed.
 
 End Fetch.
+
+(* ---------- assignment to a scalar variable: LET v = e ---------- *)
+Section Let.
+Variable O : oracle.
+
+Definition let_code (i : ident) (e : expr) : list opcode := postfix e ++ [OpPop (ident_str i)].
+
+Theorem cg_let_shape : forall c cv i e, pure e = true -> builtin_arity (ident_str i) = None ->
+  lenN (let_code i e) <= MAX_POOL ->
+  snd (fst (cg_stmt (SLet c (VUnary cv i) e))) = plain (let_code i e) /\ snd (cg_stmt (SLet c (VUnary cv i) e)) = [].
+Proof.
+  intros c cv i e Hp Hb Hl. unfold let_code in *. rewrite lenN_app, lenN_one in Hl.
+  destruct (cg_expr_postfix e Hp ltac:(lia)) as [E1 E2].
+  cbn [cg_stmt cg_var]. destruct (cg_expr e) as [[fc fl] ferrs]. cbn [fst snd] in E1, E2. subst fl ferrs.
+  unfold run_frag, lbind, push_as_pop, test_for_built_in. cbn [vi_name vi_len vi_col vi_link fst snd]. rewrite Hb. unfold lbind, lret.
+  change link_empty with (plain []).
+  rewrite (l_append_plain [] (postfix e)) by (cbn [app]; lia). cbn [app].
+  rewrite (l_push_plain (OpPop (ident_str i)) (postfix e)) by (rewrite lenN_app, lenN_one; lia).
+  cbn. split; reflexivity.
+Qed.
+
+(* the VM: the value of e, converted to the variable's type, is stored; nothing else changes; the stack is as before *)
+Theorem run_let : forall h i e r, pure e = true -> r_slen r + lenN (postfix e) <= MAX_POOL ->
+  match eval_pure O (r_vars r) e with
+  | Ok v =>
+      match var_store (r_vars r) (ident_str i) v with
+      | Ok vs => run_ops O h (let_code i e) r = (set_vars r vs, Ok tt)
+      | Err er => snd (run_ops O h (let_code i e) r) = Err er
+      | Panic => snd (run_ops O h (let_code i e) r) = Panic
+      | Hang => snd (run_ops O h (let_code i e) r) = Hang
+      end
+  | Err er => snd (run_ops O h (let_code i e) r) = Err er
+  | Panic => snd (run_ops O h (let_code i e) r) = Panic
+  | Hang => snd (run_ops O h (let_code i e) r) = Hang
+  end.
+Proof.
+  intros h i e r Hp Hs. unfold let_code. rewrite run_ops_app. pose proof (run_postfix O h e r Hp Hs) as Hr.
+  destruct (eval_pure O (r_vars r) e) as [v | er | |].
+  - rewrite Hr. cbn [run_ops exec_op]. unfold rbind, pop. cbn [pushed set_stack_len r_stack r_slen r_vars].
+    destruct (var_store (r_vars r) (ident_str i) v) as [vs | er | |]; try reflexivity.
+    cbn. replace (r_slen r + 1 - 1) with (r_slen r) by lia. destruct r; reflexivity.
+  - destruct (run_ops O h (postfix e) r) as [r1 [u | e1 | |]]; cbn in Hr; try discriminate; try (injection Hr as ->); reflexivity.
+  - destruct (run_ops O h (postfix e) r) as [r1 [u | e1 | |]]; cbn in Hr; try discriminate; reflexivity.
+  - destruct (run_ops O h (postfix e) r) as [r1 [u | e1 | |]]; cbn in Hr; try discriminate; reflexivity.
+Qed.
+
+(* the reference semantics of the same statement: evaluate, then store through the same typed store *)
+Theorem sem_let : forall fuel line cv i e s, pure e = true -> (depth e < fuel)%nat -> s_locals s = [] ->
+  (sdo x <~ eval O fuel line e ;; assign O fuel line (VUnary cv i) x) s =
+  match eval_pure O (s_vars s) e with
+  | Ok v => match var_store (s_vars s) (ident_str i) v with
+            | Ok vs => (with_vars s vs, EvOk tt)
+            | Err er => (s, EvErr (ecode er))
+            | _ => (s, EvUndef)
+            end
+  | Err er => (s, EvErr (ecode er))
+  | _ => (s, EvUndef)
+  end.
+Proof.
+  intros fuel line cv i e s Hp Hd Hloc. unfold sbind. rewrite (sem_eval_pure O fuel e s line Hp Hd Hloc).
+  destruct (eval_pure O (s_vars s) e) as [v | er | |]; reflexivity.
+Qed.
+
+(* together: after LET the VM's variable store is the store the reference semantics prescribes *)
+Theorem compiled_let_correct : forall h line cv i e r s vs,
+  pure e = true -> r_slen r + lenN (postfix e) <= MAX_POOL -> s_locals s = [] -> s_vars s = r_vars r ->
+  (sdo x <~ eval O (S (depth e)) line e ;; assign O (S (depth e)) line (VUnary cv i) x) s = (with_vars s vs, EvOk tt) ->
+  run_ops O h (let_code i e) r = (set_vars r vs, Ok tt).
+Proof.
+  intros h line cv i e r s vs Hp Hs Hloc Hv Hsem.
+  rewrite (sem_let (S (depth e)) line cv i e s Hp ltac:(lia) Hloc) in Hsem. rewrite Hv in Hsem.
+  pose proof (run_let h i e r Hp Hs) as Hrun.
+  destruct (eval_pure O (r_vars r) e) as [v | er | |]; try discriminate.
+  destruct (var_store (r_vars r) (ident_str i) v) as [vs' | er | |]; try discriminate.
+  injection Hsem as Hsem. subst. exact Hrun.
+Qed.
+
+End Let.
